@@ -10,7 +10,7 @@ LEVEL_TEXT = ("Bounded verification by symbolic execution of the real DNARegex/S
               "endpos the reported start is the leftmost declarative match in range, the match never exceeds one turn, linear "
               "targets never wrap, and every group's text is the circular read of its span; (c) group extraction on arbitrary "
               "symbolic spans.  Bounded claim.")
-LEVEL_NOTE = ("Bounds: target length n<=10 quick / n<=14 thorough for the shape family; kit patterns at n=F..F+1 (thorough). "
+LEVEL_NOTE = ("Bounds: target length n<=10 quick / n<=14 thorough for the shape family (search), n<=10/16 for group extraction; kit patterns at n=F..F+1 (thorough). "
               "Lower-case *pattern* letters are outside the claim (every structure() writes upper case). The per-position letter "
               "predicate of the oracle comes from Bio.Data.IUPACData, the CPython regex semantics from the symx re model "
               "(validated against `re` on every run). Trusted: z3, CPython, symx models.")
@@ -223,7 +223,7 @@ def obligations(tier, seed):
     for code in ("N", "R", "B"):
         obs.append(Ob("letter %s vs all IUPAC letters" % code, ob_letter, dict(code=code, alphabet="IUPACcase"),
                       samples=8, cost=1))
-    nmax = tier_pick(tier, 8, 12)
+    nmax = tier_pick(tier, 10, 14)
     shapes = SHAPES[:12] if tier == "quick" else SHAPES
     kinds = ["seq", "seq-circ", "rec", "circ"]
     import random
